@@ -332,6 +332,9 @@ def run():
     import translate_wrap
 
     facts["translated_wrappers"] = translate_wrap.run()
+    import translate_tree
+
+    facts["translated_tree"] = translate_tree.run()
     return facts
 
 
